@@ -161,6 +161,25 @@ static void case_Fa(ByteSource& in, CaseInfo& ci) {
   Out o = call_shape(api, expect.size() + 64, snsize, shape, spec, s, (mpf_srcptr)x, &nout); mpf_clear(x);
   judge_out("%Fa", api, o, expect, snsize, spec, nout, shape);
 }
+// %Ff / %Fe with a precision SHORTER than the value's digits: the digits must be correctly rounded (one rounding of the exact value); compared with libc,
+// whose rounding is exact; exact ties are skipped (libc rounds them to even, the library upwards, the manual promises neither)
+static void case_F_rounded(ByteSource& in, CaseInfo& ci) {
+  uint64_t bits = in.u64(); bits = (bits & 0x800fffffffffffffull) | ((uint64_t)in.range(1023 - 60, 1023 + 60) << 52); double d; memcpy(&d, &bits, 8); if (in.chance(60)) d = (double)in.srange(-99999, 99999) / (double)(1 << in.range(1, 12)) + (in.flag() ? 1e-9 : 0);
+  bool sci = in.flag(); int p = (int)in.range(0, 14);
+  if (in.flag()) {   // just below a rounding boundary at the requested precision: ...d 4 9 9 .. x (a first rounding to a few more digits produces ...d 5, a second one then rounds up wrongly)
+    std::string t = in.flag() ? "0." : std::to_string(in.range(1, 99999)) + "."; if (sci) t = std::to_string(in.range(1, 9)) + "."; for (int i = 0; i < p; i++) t += (char)('0' + in.range(0, 9)); t += '4'; int nines = (int)in.range(1, 4); t.append((size_t)nines, '9'); t += (char)('0' + in.range(0, 9)); if (t.size() > 17) t.resize(17);
+    d = strtod(t.c_str(), nullptr); if (in.flag()) d = -d; ci.label("F:rounded:just_below_boundary"); }
+  int ex2; double fr = std::frexp(std::fabs(d), &ex2); Int M((long long)std::ldexp(fr, 53)); long e = (long)ex2 - 53; if (M.is_zero()) { ci.label("F:rounded:zero"); return; }
+  // exact decimal digits: |d| = S * 10^-k  (k >= 0)
+  long k = e < 0 ? -e : 0; Int Sx = e < 0 ? M * ref::pow(Int(5), (uint64_t)k) : ref::shl(M, (uint64_t)e); std::string S = ref::to_string(Sx, 10); long intdigits = (long)S.size() - k;   // digits before the point (may be <= 0)
+  long cut = sci ? p + 1 : intdigits + p;   // number of leading digits of S that are kept
+  if (cut >= 0 && cut < (long)S.size()) { bool tie = S[(size_t)cut] == '5'; for (size_t i = (size_t)cut + 1; i < S.size() && tie; i++) if (S[i] != '0') tie = false; if (tie) { ci.label("F:rounded:exact_tie_skipped"); return; } }
+  char fmtl[32], fmtg[32]; snprintf(fmtl, sizeof fmtl, "%%.%d%c", p, sci ? 'e' : 'f'); snprintf(fmtg, sizeof fmtg, "%%.%dF%c", p, sci ? 'e' : 'f'); std::string expect = libc_fmt(fmtl, d);
+  mpf_t x; mpf_init2(x, 640 + 64 * (unsigned)in.range(0, 4)); mpf_set_d(x, d); char* q = nullptr; int ret = gmp_asprintf(&q, fmtg, x);   /* enough precision to carry every decimal digit of the double (at most ~130): digits beyond what the precision carries are padding by design */ std::string got = q; rec_free(q, got.size() + 1); mpf_clear(x);
+  ci.label("%F"); ci.label("F:rounded_to_fewer_digits"); ci.nontrivial = true; ci.d("F(rounded) fmt=\"%s\" d=%a", fmtg, d);
+  if (d == 0.0 || (expect.size() && expect[0] == '-' && got.size() && got[0] != '-' && expect.find_first_not_of("-0.e+") == std::string::npos)) return;   // an mpf has no negative zero
+  REQUIRE(got == expect && ret == (int)got.size(), "%s of %a (exact digits %s x 10^-%ld): got \"%s\", the correctly rounded output is \"%s\"", fmtg, d, S.c_str(), k, got.c_str(), expect.c_str());
+}
 // a standard "%c" conversion of 0 next to an MPIR conversion: the NUL is an output character like any other (C semantics), for every sink
 static void case_nul_char(ByteSource& in, CaseInfo& ci) {
   Int V = gen_int(in, 2); Z z; mpz_from_int(z, V); std::string dg = ref::to_string(V, 10); bool after = in.flag(); std::string e = after ? std::string("a") + '\0' + "b" + dg + "c" : dg + std::string("x") + '\0' + "y"; const char* fmt = after ? "a%cb%Zdc" : "%Zdx%cy";
@@ -216,6 +235,7 @@ static void case_F(ByteSource& in, CaseInfo& ci) {
   if (in.chance(70)) { case_F_big(in, ci); return; }
   if (in.chance(50)) { case_Fa(in, ci); return; }
   if (in.chance(40)) { case_Fg_alldigits(in, ci); return; }
+  if (in.chance(60)) { case_F_rounded(in, ci); return; }
   // dyadic value m/2^k whose decimal expansion is exact within the requested precision: libc prints it exactly, byte-identical output expected
   static const char cv[] = "feEgG"; Spec s = gen_spec(in, cv, false); if (s.hash) { s.hash = false; ci.label("F:hash_flag_not_asserted"); }   /* the manual does not spell out '#' for %F */
   long m = (long)in.srange(-(1 << 20), 1 << 20); if (in.chance(40)) m = 0; int k = (int)in.range(0, 10); double d = std::ldexp((double)m, -k);
@@ -287,6 +307,6 @@ static void check(ByteSource& in, CaseInfo& ci) { if (in.chance(8)) { case_nul_c
 namespace eng {
 PropDef g_prop = {"C18",
   "Cases: one call of a member of the gmp_printf family (sprintf, snprintf with size 0..len+1 into a buffer of exactly that many bytes, asprintf, fprintf, obstack_printf appended to an object being grown, and the five va_list forms) on a format made of flags subset of {-,+,space,#,0} x width {none,1,5,20,* positive,* negative} x precision {none,.0,.3,.25,.* (also negative),'.' alone} x conversion d,i,o,x,X for %Z (values 0,+-1,..,LONG_MIN/MAX, random longs, multi-limb), %Q, %N (negative size), %M (d,i,o,u,x,X), and e,f,g,E,G for %F, alone or embedded between standard conversions (%d %s %c %% %ld %5.2f %n). Oracle: libc snprintf with %l and the equal long value (byte-identical) wherever C gives the conversion a meaning; a layout model of C's padding/sign/prefix/precision rules, validated against libc in the same run, for signed o/x/X and values that do not fit a long; libc %l for %M; libc double output for %F on dyadic values whose expansion is exact at the requested precision; return value = full length, truncation = first size-1 bytes + NUL, asprintf block = length+1 (recording allocator), %n. Input: gmp_sscanf / gmp_fscanf read back what the output functions printed (%Zd %Zi %Zx %Zo %Qd %Qi %Ff %Fe %Fg %Fa, %n, %*Zd), C-style count, EOF and matching failure. Not asserted: '#' with precision 0 on zero, '0' flag with %Q. Non-trivial: every case. Distinct = hash of all decoded choices.",
-  check, setup, {"Z:compared_with_libc", "Z:big_value_model", "Z:signed_oxX_model", "Z:empty_precision", "%Q", "%N", "%M", "%F", "%Fa", "%.Fg", "nul_char_in_output", "F:integer_valued_many_limbs", "gmp_snprintf", "gmp_asprintf", "gmp_vsnprintf", "gmp_fprintf", "gmp_obstack_printf", "gmp_sscanf", "gmp_fscanf", "gmp_vsscanf", "gmp_vfscanf", "scan:eof", "flag0_with_minus", "flag0_with_precision"}, fixed_case, sweep_count, sweep_item,
+  check, setup, {"Z:compared_with_libc", "Z:big_value_model", "Z:signed_oxX_model", "Z:empty_precision", "%Q", "%N", "%M", "%F", "%Fa", "%.Fg", "nul_char_in_output", "F:rounded_to_fewer_digits", "F:integer_valued_many_limbs", "gmp_snprintf", "gmp_asprintf", "gmp_vsnprintf", "gmp_fprintf", "gmp_obstack_printf", "gmp_sscanf", "gmp_fscanf", "gmp_vsscanf", "gmp_vfscanf", "scan:eof", "flag0_with_minus", "flag0_with_precision"}, fixed_case, sweep_count, sweep_item,
   "the full cross product of the 32 flag subsets of {-,+,space,#,0} x width {none,1,5,20,* = 9,* = -9} x precision {none,.0,.3,.25,.* = 4,.* = -2,'.' alone} x conversion {d,i,o,x,X} x 12 long values (0,+-1,+-7,+-123,65535,LONG_MAX,LONG_MIN,1000000007,-99999) through gmp_snprintf %Z: compared with libc where C gives the conversion a meaning, with the libc-validated layout model otherwise (80,640 format/value pairs)"};
 }
